@@ -398,6 +398,14 @@ where
     }
     if nregs == 2 {
         inits.push(vec![toy_to_raw::<C>(&g.rep(gen, &l2)), toy_to_raw::<C>(&g.rep(g.neg[gen] as usize, &l1))]);
+        if depth.is_none() {
+            // start from every pair of points as well (non-initial states: the whole 2-register space becomes reachable)
+            for i in 0..g.n() {
+                for j in 0..g.n() {
+                    inits.push(vec![toy_to_raw::<C>(&g.rep(i, &l2)), toy_to_raw::<C>(&g.rep(j, &l1))]);
+                }
+            }
+        }
     }
     let sys = ToyRegs::<C> { g: g.clone(), inits: inits.clone() };
     let res = explore(sys, depth, ctx.threads, false);
